@@ -7,6 +7,8 @@ import (
 	"os"
 	"time"
 
+	"golang.org/x/sys/unix"
+
 	gnet "github.com/panjf2000/gnet/v2"
 
 	"github.com/panjf2000/gnet/v2/pkg/vsys"
@@ -155,6 +157,19 @@ func main() {
 				res.Checkpoint()
 				if res.NViolations() > 60 {
 					break
+				}
+			}
+		}
+		for _, call := range []int{vsys.CRecvfrom, vsys.CSendto} {
+			for _, e := range []unix.Errno{unix.ECONNREFUSED, unix.ENOBUFS} {
+				for k := int64(1); k <= K && k <= 3; k++ {
+					if runC18UDPCase(res.Seed*1000609+uint64(k), call, e, k, keys) {
+						reached++
+					} else {
+						notReached++
+						nr["udp "+vsys.CallName(call)]++
+					}
+					res.Checkpoint()
 				}
 			}
 		}
